@@ -20,6 +20,18 @@ func (p *Profile) SetProfile(path string, def bool) error {
 		return err
 	}
 
+	// blocks that were left out behave like empty ones: the rest of the
+	// teamserver reads these without checking for nil
+	if p.Config.Server == nil {
+		p.Config.Server = new(ServerProfile)
+	}
+	if p.Config.Operators == nil {
+		p.Config.Operators = new(OperatorsBlock)
+	}
+	if p.Config.Demon == nil {
+		p.Config.Demon = new(Demon)
+	}
+
 	if def {
 		logger.Info("Use default profile")
 	} else {
